@@ -39,6 +39,11 @@ type wireTap struct {
 	fromCli  []byte
 	toCli    []byte
 	maxChunk int
+	// lateReturn: the first writes towards the client return this long after their bytes were delivered (a transport
+	// whose Write returns late, e.g. one that waits for an acknowledgement): the client's answer to a
+	// HelloRetryRequest can then be read by the proxy's other goroutine while Write(HRR) is still in progress
+	lateReturn time.Duration
+	lateLeft   int
 }
 
 func (w *wireTap) Read(b []byte) (int, error) {
@@ -56,7 +61,14 @@ func (w *wireTap) Write(b []byte) (int, error) {
 	n, err := w.Conn.Write(b)
 	w.mu.Lock()
 	w.toCli = append(w.toCli, b[:n]...)
+	late := w.lateReturn > 0 && w.lateLeft > 0
+	if late {
+		w.lateLeft--
+	}
 	w.mu.Unlock()
+	if late {
+		time.Sleep(w.lateReturn) // an injected delay, never a verdict
+	}
 	return n, err
 }
 
@@ -360,6 +372,9 @@ func oneConnection(r *mon.Run, work string, idx int, rng *mrand.Rand, fx *fixtur
 	cliSide.SetDeadline(dl)
 	srvSide.SetDeadline(dl)
 	tapc := &wireTap{Conn: srvSide, maxChunk: s.Chunk}
+	if s.Proxy > 0 && idx%2 == 0 {
+		tapc.lateReturn, tapc.lateLeft = 15*time.Millisecond, 3
+	}
 
 	type serverResult struct {
 		err       error
@@ -485,6 +500,7 @@ func oneConnection(r *mon.Run, work string, idx int, rng *mrand.Rand, fx *fixtur
 	fromCli, toCli := tapc.fromCli, tapc.toCli
 	tapc.mu.Unlock()
 	nHello, sawHRR := 0, false
+	tapLate := tapc.lateReturn > 0
 	recsC, _ := tlswire.SplitRecords(fromCli)
 	for _, rec := range recsC {
 		if rec.Type == 22 && len(rec.Payload) > 0 && rec.Payload[0] == 1 {
@@ -616,6 +632,12 @@ func oneConnection(r *mon.Run, work string, idx int, rng *mrand.Rand, fx *fixtur
 	r.Eval(fmt.Sprintf("%s|%s|%v|%d|%d|%v|%d|%d|%d/%d|%d|%d|%d|%v", s.ClientCurves, s.BackendCurves, sawHRR, len(s.ALPN), len(s.ServerName), cs.DidResume, s.ClientCert, s.BackendChain, s.KeyPos, s.NKeys, s.AEAD, s.Up/1000, s.Chunk, s.TCP) + fmt.Sprintf("|px%d|%s", s.Proxy, s.KeySet))
 	if s.Proxy > 0 {
 		r.Count("completed_through_split_mode_proxy", 1)
+		if tapLate {
+			r.Count("completed_through_proxy_with_late_returning_writes", 1)
+			if sawHRR {
+				r.Count("completed_with_hrr_through_proxy_with_late_returning_writes", 1)
+			}
+		}
 	}
 	if s.KeySet != "" && s.NKeys > 1 {
 		r.Count("completed_with_shared_id_or_other_name_keys", 1)
@@ -735,6 +757,7 @@ func TestCheck(t *testing.T) {
 	r.Floor("completed_with_record_over_16384", 3)
 	r.Floor("completed_with_client_cert", 3)
 	r.Floor("completed_through_split_mode_proxy", 10)
+	r.Floor("completed_with_hrr_through_proxy_with_late_returning_writes", 2)
 	r.Floor("completed_with_shared_id_or_other_name_keys", 10)
 }
 
